@@ -11,7 +11,7 @@ from sqlalchemy import Boolean, Column, Float, String
 from sqlalchemy.ext.declarative import declared_attr
 
 # Local Imports
-from ...physics.time.stardate import JulianDate, datetimeToJulianDate
+from ...physics.time.stardate import JulianDate, ScenarioTime, datetimeToJulianDate
 from .base import Event, EventScope, ThrustFrame
 
 # Type Checking Imports
@@ -67,7 +67,11 @@ class ScheduledImpulseEvent(Event):
             scope_instance (:class:`~.agent_base.Agent`): agent instance that will be executing this impulse.
         """
         start_jd = JulianDate(self.start_time_jd)
-        start_sim_time = start_jd.convertToScenarioTime(scope_instance.julian_date_start)
+        # [NOTE]: A Julian date resolves ~4e-5 sec; drop the conversion noise so that an impulse
+        #   scheduled on a step boundary stays on it.
+        start_sim_time = ScenarioTime(
+            round(start_jd.convertToScenarioTime(scope_instance.julian_date_start), 3),
+        )
 
         burn_vector = array([self.thrust_vec_0, self.thrust_vec_1, self.thrust_vec_2])
         frame = ThrustFrame(self.thrust_frame)  # raises ValueError if frame isn't valid
